@@ -819,6 +819,16 @@ theorem C04_mem_refines_value_model (ops : List MOp) (hsafe : Safe minit ops) :
     Sim (mrun minit ops) (run init (toOps minit ops)).1 :=
   sim_run sim_init minv_init ops hsafe
 
+/-- **… down to the ordered map.**  Chaining with `C04_refines_all_histories`: after every safe history the data the store
+with memory holds, sorted by key, is the specification's ordered map after the same requests (`toOps`: arguments = what
+the caller's buffers read when each request was made). -/
+theorem C04_mem_stored_data_is_the_ordered_map (ops : List MOp) (hsafe : Safe minit ops) :
+    absMap (Mem.storeView (mrun minit ops)) = (Spec.run Spec.init (toOps minit ops)).1.m := by
+  have hs := C04_mem_refines_value_model ops hsafe
+  have hr := (C04_refines_all_histories (toOps minit ops)).2
+  have hm : (abs (run init (toOps minit ops)).1).m = absMap (run init (toOps minit ops)).1.db.m := rfl
+  rw [← hr, hm, hs.db]
+
 /-- `Safe` is satisfiable by a history with writes that matter: the buffer passed to `WithExtendedRealm` (the view has a
 private copy) and the key / value buffer of a `Set` are overwritten afterwards, then read back. -/
 example : Safe minit [.alloc [1], .alloc [5], .withExtendedRealm 1 0 1, .set 1 2 2, .write 1 [9], .write 2 [8], .get 1 2] := by
